@@ -166,6 +166,40 @@ def self_copy_diffs(base, lines):
     return d, doubled
 
 
+class icode_aware_desolvation:
+    """context manager: PROPKA with the same-residue test of radial_volume_desolvation extended by the insertion code (the
+    candidate repair of finding D15), derived from the current source text.  Used only to decide whether D15 is the *sole* cause
+    of a difference: if base and twin variant agree under the repaired rule, every difference comes from D15."""
+    OLD = "and atom.chain_id == group.atom.chain_id):"
+    NEW = "and atom.chain_id == group.atom.chain_id\n                and atom.icode == group.atom.icode):"
+
+    def __enter__(self):
+        import inspect
+        import propka.energy as E
+        import propka.version as V
+        src = inspect.getsource(E.radial_volume_desolvation)
+        self.ok = src.count(self.OLD) == 1
+        self.saved = (E.radial_volume_desolvation, V.radial_volume_desolvation)
+        if self.ok:
+            ns = dict(vars(E))
+            exec(compile(src.replace(self.OLD, self.NEW), "<icode-aware radial_volume_desolvation>", "exec"), ns)
+            E.radial_volume_desolvation = V.radial_volume_desolvation = ns["radial_volume_desolvation"]
+        return self
+
+    def __exit__(self, *a):
+        import propka.energy as E
+        import propka.version as V
+        E.radial_volume_desolvation, V.radial_volume_desolvation = self.saved
+
+
+def d15_is_sole_cause(original, variant):
+    with icode_aware_desolvation() as p:
+        if not p.ok:
+            return False
+        a, b = observe.run(original, [], want_text=False), observe.run(variant, [], want_text=False)
+    return not (a.error or b.error) and compare(a, b) == []
+
+
 def corpus_first(ctx):
     """witnesses of listed findings run first, so that a listed finding is reported on every run while it persists"""
     import json
@@ -240,6 +274,9 @@ def run(ctx):
         # the same-residue exclusion of the desolvation sum compares number and chain only: it can only touch groups of
         # the two residues that share the number (label = name + number + chain)
         own = all(x.split(".")[0][3:7].strip() in (str(b[4][0]), str(b[4][1])) for x in b[1] if "." in x) and any(".e_vol" in x or ".n_vol" in x for x in b[1])
+        # differences that reach other groups (a pair weight, a Coulomb criterion) are still D15 if they vanish once the
+        # same-residue test looks at the insertion code
+        own = own or d15_is_sole_cause(b[3], b[2])
         sig = "D15:insertion-code-blind-desolvation" if own else "twin:" + b[0]
         if sig not in ctx.known:
             twin_unlisted.append(b)
